@@ -61,7 +61,7 @@ CHECKS.update({
 CHECKS.update({
  "C06": dict(engine="E2-bubble + E1-enum + E3-sched", cat="model_checking", tech=E2 + "; schedule part: " + E3,
   text="Tree search: Selected hsmsss connection (passive/active x host/equipment, two data handlers, T3 3 s), n <= 2 (thorough <= 3) overlapping reply-expected sends; every peer history of length <= 3 (thorough <= 4) over, per open transaction: reply, duplicate reply, odd-function W=0 message, W and non-W primary with colliding system bytes, Reject.req reason {1..5,255}, Select/Deselect/Linktest.rsp with colliding system bytes, ctx cancel; plus unsolicited secondary, T3-1ms, +2ms, peerClose, Close. After every event each call's return value and virtual return time, the per-handler delivery logs and the library's frames are compared with a reference map of open transactions (own reply byte-identical, RejectError reason, ErrT3Timeout at exactly write+T3, ErrConnClosed, ctx error; never (nil,nil); one recipient per inbound data frame). Plus 2^16+10 consecutive system-bytes draws read off the wire.",
-  note="Depth-bounded; events separated by quiescence (exact ties of reply/T3/cancel are not enumerated by this part). HSMS-SS. The genuine defect this check found (control response colliding with an open data transaction -> (nil,nil)) is repaired in /repo (fix: commit 0542585)."),
+  note="Depth-bounded; events separated by quiescence (exact ties of reply/T3/cancel are not enumerated by this part). HSMS-SS. The genuine defects this check found are repaired in /repo: a control response colliding with an open data transaction completing it with (nil,nil) (fix: 0542585), the same stray costing the transaction its reply (2f35c30), and a reply that ties with T3 / teardown / cancellation reaching nobody (2cc474c); the last two were found by the E3 part."),
  "C20": dict(engine="E2-bubble + E3-sched", cat="model_checking", tech=E2 + "; schedule part: " + E3,
   text="Tree search: every history of length <= 3 over a 23-symbol alphabet and <= 4 over 14 symbols (thorough deeper), with at most 3 sends: the 5 send entry points, stall+write-timeout and reset-under-blocked-write errors, reply / Reject / cancel / T3, drop, reconnect, refused dials, Deselect/Select, inbound data, malformed frames, Close. At every quiescent point all eight metrics are compared with a reference ledger of the documented per-outcome vectors and with the peer's own count of data frames received over all TCP generations: in-flight >= 0 and equal to waiting sends, Reconnecting > 0 exactly while the backoff loop runs, 0 after Close.",
   note="Depth-bounded, quiescent points only (gauge between scheduling points is not enumerated); HSMS-SS only; Reconnects() checked for the active role. Trusted: synctest, sim, ledger derived from the doc comments."),
